@@ -167,6 +167,8 @@ pub struct Work {
     /// wait the `sleep` ticks as that many separate one-tick waits (the handler is woken and
     /// polled in between) instead of one long wait
     pub split: bool,
+    /// a command message performs its context operation *before* this work instead of after it
+    pub act_first: bool,
 }
 
 #[derive(Clone, Copy, Debug, PartialEq, Eq)]
@@ -864,8 +866,14 @@ impl<const K: u8> Handler<Cmd> for Probe<K> {
     async fn handle(&mut self, ctx: &mut Context<Self>, m: Cmd) {
         let cb = Cb::Msg(m.0);
         self.enter(cb);
-        do_work(self.work_for(m.0)).await;
-        self.act(ctx, m.1).await;
+        let work = self.work_for(m.0);
+        if work.act_first {
+            self.act(ctx, m.1).await;
+            do_work(work).await;
+        } else {
+            do_work(work).await;
+            self.act(ctx, m.1).await;
+        }
         self.after(cb);
         self.handled += 1;
         self.digest = fold(self.digest, m.0);
@@ -926,6 +934,16 @@ impl<const K: u8> Handler<()> for Probe<K> {
     async fn handle(&mut self, _ctx: &mut Context<Self>, _m: ()) {
         self.enter(Cb::Unit);
         self.exit(Cb::Unit);
+    }
+}
+
+/// A second item type, handled the same way - but `finished` is *not* overridden for it: an actor
+/// attached to a stream of these relies on the trait's provided default.
+pub struct PlainItem(pub u32);
+
+impl<const K: u8> StreamHandler<PlainItem> for Probe<K> {
+    async fn handle(&mut self, ctx: &mut Context<Self>, m: PlainItem) {
+        <Self as StreamHandler<Item>>::handle(self, ctx, Item(m.0)).await
     }
 }
 
